@@ -8,6 +8,8 @@ prop="${1:-}"
 case "$prop" in
   C10) target=api_ops; runs=${FUZZ_RUNS:-300000}; maxlen=400 ;;
   C13) target=name_parse; runs=${FUZZ_RUNS:-3000000}; maxlen=80 ;;
+  C03) target=hs_alter; runs=${FUZZ_RUNS:-400000}; maxlen=200 ;;
+  C04) target=tr_forge; runs=${FUZZ_RUNS:-400000}; maxlen=120 ;;
   *) exit 0 ;;
 esac
 seed="${VERIF_SEED:-1}"; [ "$seed" = "0" ] && seed=1
